@@ -304,13 +304,14 @@ def _insert_position(stmts):
                 if n.func.attr == 'insert':
                     return 'middle'
             if isinstance(n, ast.BinOp) and isinstance(n.op, ast.Add):
-                if isinstance(n.right, ast.List) and len(n.right.elts) == 1 and not isinstance(n.left, ast.List):
+                if isinstance(n.right, (ast.List, ast.Tuple)) and len(n.right.elts) == 1 and not isinstance(n.left, (ast.List, ast.Tuple)):
                     return 'end'
-                if isinstance(n.left, ast.List) and len(n.left.elts) == 1 and not isinstance(n.right, ast.List):
+                if isinstance(n.left, (ast.List, ast.Tuple)) and len(n.left.elts) == 1 and not isinstance(n.right, (ast.List, ast.Tuple)):
                     return 'front'
             if isinstance(n, ast.AugAssign) and isinstance(n.op, ast.Add) and isinstance(n.value, ast.List):
                 return 'end'
-            if isinstance(n, ast.List) and len(n.elts) == 2 and any(isinstance(e, ast.Starred) for e in n.elts):
+            if isinstance(n, (ast.List, ast.Tuple)) and len(n.elts) == 2 and len([e for e in n.elts if isinstance(e, ast.Starred)]) == 1 and \
+                    isinstance(getattr(n, 'ctx', None), ast.Load):
                 return 'end' if isinstance(n.elts[0], ast.Starred) else 'front'
     return None
 
@@ -363,6 +364,9 @@ def rule_retractall_filters_by_match(em, rep, rid):
         key = '%s:%s' % (f.qname, norm(c))
         ok = False
         why = 'the published list is %s' % (norm(a) if a is not None else None)
+        # tuple(xs) / list(xs) of the filtered local is that local frozen
+        while isinstance(a, ast.Call) and is_name(a.func) and a.func.id in ('tuple', 'list') and len(a.args) == 1 and not a.keywords:
+            a = a.args[0]
         if isinstance(a, ast.Name):
             name = a.id
             inits = [s for s in own_nodes_ordered(f.node) if isinstance(s, ast.Assign) and any(is_name(t, name) for t in s.targets)]
@@ -600,9 +604,13 @@ def rule_call_argument_order(em, rep, rid):
         rep.violation(rid, call.qname + ':varargs', 'call() takes no extra arguments', call.loc())
         return
     n = 0
-    for c, cs in em.cg.calls.get(call, ()):
-        if query not in cs:
-            continue
+    sites = [(c, cs) for c, cs in em.cg.calls.get(call, ()) if query in cs]
+    if not sites:
+        # the goal is resolved by a helper (shared with other builtins): seen in the view, where the helper's body stands in
+        # place of its call and its parameter for the extra arguments is call()'s own
+        call = em.view(call, keep=(query,))
+        sites = [(c, [query]) for c in own_nodes_ordered(call.node) if isinstance(c, ast.Call) and query in em.cg.resolve_callable(call, c.func)]
+    for c, cs in sites:
         n += 1
         a = arg_for_param(c, query, 'args')
         key = '%s:%s' % (call.qname, norm(a) if a is not None else '?')
